@@ -25,17 +25,7 @@ TRANSLATORS = ["T-selectors-cheat"]
 
 # Genuine defects of halmos reproduced by this check (entries have the format of
 # known_findings.json; the coordinator decides between a fix and that file).
-KNOWN = [
-    {
-        "id": "C14-console-consumes-prank",
-        "property": "C14",
-        "what": "a console.log call between vm.prank(a) and the next call consumes the prank: Prank.lookup exempts only the hevm and svm "
-                "addresses although SEVM.call treats console.address as a cheatcode address (CHEATCODE_ADDRESSES); the pranked call is "
-                "made with msg.sender = the test contract (Foundry: console calls never consume a prank)",
-        "match": {"defect": "console_call_consumes_prank"},
-        "replay": {"ops": [["prank", 0xA1], ["cheat", "console"], ["call", "call", 0xC0001], ["return"]]},
-    },
-]
+KNOWN = common.known_for("C14")  # entries live in /verif/known_findings.json
 
 ASSUMPTIONS = [
     "Foundry semantics of prank/startPrank/stopPrank as written in Spec/FoundrySpec.v (my reading of the Foundry book and forge-std Vm.sol; there is no forge in the sandbox)",
